@@ -166,8 +166,12 @@ Section AddTrait.
       + apply (plan_sub_flag h' k n cs x F' c y Hc). unfold nexts. rewrite (proj2 (a_nohit n x Hh)). exact Hy.
   Qed.
 
+  Definition root0 (g' : graph) : bool := match g' with G (NNamed f' _ _) _ => Nat.eqb f' f0 | _ => false end.
+  Lemma tocc_root0 g x g' : In g' (tocc g x) -> root0 g' = true.
+  Proof. intros Hin. destruct (tocc_root g x g' Hin) as (nt & opt & cs & ->). cbn. apply Nat.eqb_refl. Qed.
+
   (* the trait_added maintainers a walk places on the object for a sub-graph g' naming the added trait *)
-  Lemma ta_on_slot k g' g : (exists nt opt cs, g' = G (NNamed f0 nt opt) cs) ->
+  Lemma ta_on_slot k g' g : root0 g' = true ->
     forall x, snd (plan h k false g x) = false ->
     pcount h k g x (x0, F_TA) (CK (AMaint MTA g' k)) = lsum (fun a => b2n (graph_eqb a g')) (tocc g x).
   Proof.
@@ -190,14 +194,219 @@ Section AddTrait.
     { unfold loc2. apply Zero. intros e He. destruct (observables h n x); [|destruct He]. cbn in He.
       apply in_flat_map in He. destruct He as (o' & _ & He). apply in_map_iff in He. destruct He as (ch & <- & _).
       cbn [snd]. destruct n; exact I. }
-    cbn [Nat.add]. unfold loc4. cbn [F_TA] in *.
-    destruct n as [f nt opt|ck nt opt]; cbn [ahits].
-    - assert (is_ht h x = true) as Hx.
-      { cbn [plan] in F. apply pseq_flag_false in F. destruct F as [_ F]. apply pseq_flag_false in F. destruct F as [_ F].
-        apply pseq_flag_false in F. destruct F as [_ F4]. destruct (is_ht h x) eqn:Q; [reflexivity|].
-        (* not a HasTraits object: then x <> x0, and the entry below is absent *) 
-        destruct opt; [|discriminate F4]. reflexivity || exact Q. }
-      admit.
-    - cbn [p_ok fst ecnt lsum]. reflexivity.
-  Admitted.
+    cbn [Nat.add]. unfold loc4.
+    destruct n as [f nt opt|ck nt opt]; cbn [ahits]; [|reflexivity].
+    destruct (is_ht h x) eqn:Q.
+    - change [((x, F_TA), AMaint MTA (G (NNamed f nt opt) cs) k)]
+        with (map (fun c => ((x, F_TA), AMaint MTA c k)) [G (NNamed f nt opt) cs]).
+      cbn [p_ok fst]. rewrite ecnt_map_maint. unfold obsv_eqb. cbn [fst snd mkind_eqb]. rewrite Nat.eqb_refl, !andb_true_r.
+      destruct (Nat.eqb x x0); cbn [andb]; [|reflexivity]. destruct (Nat.eqb f f0) eqn:Qf; [reflexivity|].
+      cbn [lsum]. destruct (graph_eqb (G (NNamed f nt opt) cs) g') eqn:Qg; [|reflexivity].
+      apply graph_eqb_spec in Qg. subst g'. cbn [root0] in Rt. congruence.
+    - assert (Nat.eqb x x0 = false) as -> by (destruct (Nat.eqb_spec x x0); [subst; congruence|reflexivity]).
+      cbn [andb lsum]. destruct opt; reflexivity.
+  Qed.
+
+  (* ------------------------------------------------------------ what the trait_added run does to the counts *)
+  Lemma walk_plan_add_ok p H : snd p = false -> posH H ->
+    exists H1, walk_plan p false H = (H1, None) /\ posH H1 /\ forall o c, cntH H1 o c = cntH H o c + ecnt o c (fst p).
+  Proof.
+    destruct p as [es sf]. cbn [fst snd]. intros -> P. unfold walk_plan.
+    destruct (exec_add es H []) as (H1 & E1 & C1 & P1). rewrite E1. exists H1. split; [reflexivity|]. split; [apply P1, P|exact C1].
+  Qed.
+  Definition aadd (o : obsv) (cc : ckey) (n : notifier) : nat :=
+    match n with NMaint MTA g' k => if root0 g' then rcnt k g' o cc else 0 | _ => 0 end.
+  Lemma run_ta_acc s : dead_handlers s = [] -> dead_objs s = [] ->
+    forall ns H calls, posH H ->
+    (forall g' k, In (NMaint MTA g' k) ns -> root0 g' = true -> snd (plan_restricted h' k g' x0) = false) ->
+    exists H' calls', run_ta_notifiers h' s x0 f0 ns H calls = (H', calls', None) /\ posH H' /\
+      forall o cc, cntH H' o cc = cntH H o cc + lsum (aadd o cc) ns.
+  Proof.
+    intros Dh Do. assert (forall k, alive s k = true) as Al by (intros k; unfold alive; rewrite Dh, Do; reflexivity).
+    induction ns as [|n r IH]; intros H calls P F; cbn [run_ta_notifiers].
+    - exists H, calls. split; [reflexivity|]. split; [exact P|]. intros; cbn; lia.
+    - assert (forall g' k, In (NMaint MTA g' k) r -> root0 g' = true -> snd (plan_restricted h' k g' x0) = false) as Fr
+          by (intros; apply F; [right|]; assumption).
+      assert (forall calls0, (forall o cc, aadd o cc n = 0) ->
+                exists H' calls', run_ta_notifiers h' s x0 f0 r H calls0 = (H', calls', None) /\ posH H' /\
+                  forall o cc, cntH H' o cc = cntH H o cc + lsum (aadd o cc) (n :: r)) as Skip.
+      { intros calls0 Z. destruct (IH H calls0 P Fr) as (H' & calls' & E & P' & C'). exists H', calls'.
+        split; [exact E|]. split; [exact P'|]. intros o cc. cbn [lsum]. rewrite Z, C'. lia. }
+      destruct n as [k rc|m g' k|i]; [apply Skip; intros; reflexivity| |apply Skip; intros; reflexivity].
+      destruct m; [apply Skip; intros; reflexivity|apply Skip; intros; reflexivity|].
+      destruct g' as [[f' nt opt|ck nt opt] cs]; [|apply Skip; intros; reflexivity].
+      rewrite Al. cbn [andb]. destruct (Nat.eqb f' f0) eqn:Qf.
+      + assert (root0 (G (NNamed f' nt opt) cs) = true) as Rt by exact Qf.
+        destruct (walk_plan_add_ok (plan_restricted h' k (G (NNamed f' nt opt) cs) x0) H
+                    (F _ _ (or_introl eq_refl) Rt) P) as (H1 & E1 & P1 & C1).
+        rewrite E1. destruct (IH H1 calls P1 Fr) as (H' & calls' & E & P' & C'). exists H', calls'.
+        split; [exact E|]. split; [exact P'|]. intros o cc. cbn [lsum aadd]. rewrite Rt, C', C1. unfold rcnt. lia.
+      + apply Skip. intros o cc. cbn [aadd root0]. rewrite Qf. reflexivity.
+  Qed.
+
+  (* the relevant trait_added maintainers of a notifier list *)
+  Definition msA (ns : list notifier) : list gk :=
+    flat_map (fun n => match n with NMaint MTA g' k => if root0 g' then [(g', k)] else [] | _ => [] end) ns.
+  Lemma cnt_msA g' k ns : cntA gk_eqb (g', k) (msA ns) = if root0 g' then cnt (CK (AMaint MTA g' k)) ns else 0.
+  Proof.
+    unfold cntA. induction ns as [|n r IH]; [destruct (root0 g'); reflexivity|]. cbn [msA flat_map cnt]. rewrite lsum_app. fold (msA r).
+    rewrite IH. destruct n as [k' rc|m g k'|i]; cbn [lsum weight matches]; try (destruct (root0 g'); reflexivity).
+    destruct m; cbn [lsum mkind_eqb andb b2n]; try (destruct (root0 g'); reflexivity).
+    destruct (root0 g) eqn:Rg.
+    - cbn [lsum]. unfold gk_eqb. cbn [fst snd]. rewrite (graph_eqb_sym g g'), (key_eqb_sym k' k).
+      destruct (root0 g') eqn:Rg'; [lia|]. destruct (graph_eqb g' g) eqn:Qg; [|reflexivity].
+      apply graph_eqb_spec in Qg. subst. congruence.
+    - cbn [lsum]. destruct (root0 g') eqn:Rg'; [|reflexivity]. destruct (graph_eqb g' g) eqn:Qg; [|reflexivity].
+      apply graph_eqb_spec in Qg. subst. congruence.
+  Qed.
+  Lemma aadd_ms o cc ns : lsum (aadd o cc) ns = lsum (fun p : gk => rcnt (snd p) (fst p) o cc) (msA ns).
+  Proof.
+    induction ns as [|n r IH]; [reflexivity|]. cbn [lsum msA flat_map]. rewrite lsum_app. fold (msA r). rewrite IH. f_equal.
+    destruct n as [k rc|m c k|i]; try reflexivity. destruct m; try reflexivity. cbn [aadd]. destruct (root0 c); cbn; lia.
+  Qed.
+  Definition slotA (R : list reg) : list gk :=
+    flat_map (fun r : reg => let '(k, g, x) := r in map (fun g' => (g', k)) (tocc g x)) R.
+  Lemma cnt_slotA R g' k : flags_ok h R ->
+    cntA gk_eqb (g', k) (slotA R) = if root0 g' then tot h R (x0, F_TA) (CK (AMaint MTA g' k)) else 0.
+  Proof.
+    intros F. unfold cntA, slotA, tot. induction R as [|[[k' g] x] R IH]; [destruct (root0 g'); reflexivity|].
+    cbn [flat_map lsum]. rewrite lsum_app, IH; [|intros ? ? ? Hin; apply F; right; exact Hin].
+    assert (lsum (fun b => b2n (gk_eqb b (g', k))) (map (fun a => (a, k')) (tocc g x))
+            = if key_eqb k' k then lsum (fun a => b2n (graph_eqb a g')) (tocc g x) else 0) as E.
+    { induction (tocc g x) as [|a l IHl]; [cbn; destruct (key_eqb k' k); reflexivity|].
+      cbn [map lsum]. rewrite IHl. unfold gk_eqb. cbn [fst snd]. destruct (key_eqb k' k); [rewrite andb_true_r|rewrite andb_false_r]; cbn; lia. }
+    rewrite E. destruct (root0 g') eqn:Rt.
+    - f_equal. destruct (key_eqb k' k) eqn:Q.
+      + apply key_eqb_spec in Q. subst k'. symmetry. apply (ta_on_slot k g' g Rt). apply (F k g x). left. reflexivity.
+      + symmetry. apply plan_other_key. cbn [akey_key]. intros Ek. subst. rewrite key_eqb_refl in Q. discriminate.
+    - rewrite Nat.add_0_r. destruct (key_eqb k' k); [|reflexivity]. apply lsum_zero. intros a Ha.
+      destruct (graph_eqb a g') eqn:Qg; [|reflexivity]. apply graph_eqb_spec in Qg. subst.
+      rewrite (tocc_root0 g x g' Ha) in Rt. discriminate.
+  Qed.
+  Lemma slotA_sum (Q : key -> graph -> nat) R :
+    lsum (fun p : gk => Q (snd p) (fst p)) (slotA R)
+    = lsum (fun r : reg => let '(k, g, x) := r in lsum (fun g' => Q k g') (tocc g x)) R.
+  Proof. unfold slotA. rewrite lsum_flat_map. apply lsum_ext. intros [[k g] x] _. rewrite lsum_map. reflexivity. Qed.
+
+  (* one add_trait: the trait_added maintainers complete every live registration that names the new trait *)
+  Theorem add_trait_step (A : aacyclic) R H s : dinv h H R -> flags_ok h' R ->
+    dead_handlers s = [] -> dead_objs s = [] ->
+    exists H' calls, run_ta_notifiers h' s x0 f0 (H (x0, F_TA)) H [] = (H', calls, None) /\ dinv h' H' R.
+  Proof.
+    intros (P & Inv & F) F' Dh Do.
+    assert (forall Q : key -> graph -> nat,
+              lsum (fun p : gk => Q (snd p) (fst p)) (msA (H (x0, F_TA)))
+              = lsum (fun r : reg => let '(k, g, x) := r in lsum (fun g' => Q k g') (tocc g x)) R) as Sum.
+    { intros Q. rewrite <- slotA_sum. apply (lsum_by_counts gk_eqb gk_eqb_spec). intros [c k].
+      rewrite cnt_msA, (cnt_slotA R c k F). destruct (root0 c); [apply Inv|reflexivity]. }
+    assert (forall c k, In (NMaint MTA c k) (H (x0, F_TA)) -> root0 c = true ->
+              exists g x, In (k, g, x) R /\ In c (tocc g x)) as Src.
+    { intros c k Hin Rt. pose proof (in_cnt_pos _ _ (P (x0, F_TA)) Hin) as Pos. cbn [ckey_of] in Pos.
+      change (cnt (CK (AMaint MTA c k)) (H (x0, F_TA))) with (cntH H (x0, F_TA) (CK (AMaint MTA c k))) in Pos.
+      rewrite Inv in Pos. pose proof (cnt_slotA R c k F) as Cs. rewrite Rt in Cs. rewrite <- Cs in Pos.
+      apply (cntA_pos_in gk_eqb gk_eqb_spec) in Pos. unfold slotA in Pos. apply in_flat_map in Pos.
+      destruct Pos as ([[k' g] x] & Hr & Hm). apply in_map_iff in Hm. destruct Hm as (ch & E & Hch).
+      inversion E; subst. exists g, x. split; assumption. }
+    destruct (run_ta_acc s Dh Do (H (x0, F_TA)) H [] P) as (H' & calls & E & P' & C).
+    { intros c k Hin Rt. destruct (Src c k Hin Rt) as (g & x & Hr & Hc).
+      apply (tocc_flags A k g x (F k g x Hr) (F' k g x Hr) c Hc). }
+    exists H', calls. split; [exact E|]. split; [exact P'|]. split; [|exact F'].
+    intros o a. rewrite (C o (CK a)), aadd_ms, (Sum (fun k g' => rcnt k g' o (CK a))), Inv.
+    unfold tot. rewrite <- lsum_plus. apply lsum_ext. intros [[k g] x] Hr. symmetry.
+    apply (asubst k o (CK a) A g x (F k g x Hr) (F' k g x Hr)).
+  Qed.
 End AddTrait.
+
+(* ------------------------------------------------------------------ histories with link reassignments, container
+   mutations AND add_trait *)
+Inductive cop3 :=
+| C2 (c : cop2)
+| CAdd (x : oid) (f : fname) (v : list oid).      (* x.add_trait(f, ...) of a new name; the trait then holds v *)
+Definition dop_of3 (c : cop3) : dop :=
+  match c with C2 c' => dop_of2 c' | CAdd x f v => DAddTrait x f v end.
+Definition live_after3 (R : list reg) (c : cop3) (ob : obs) : list reg :=
+  match c with C2 c' => live_after2 R c' ob | CAdd _ _ _ => R end.
+(* add_trait is admissible if the name is new on a HasTraits object, the object's new trait is not reachable from the
+   value the trait starts with, and the live registrations stay valid *)
+Definition admissible3 (h : heap) (R : list reg) (c : cop3) : Prop :=
+  match c with
+  | C2 c' => admissible2 h R c'
+  | CAdd x f v => has_trait h x f = false /\ is_ht h x = true /\ aacyclic h x f v /\ flags_ok (add_trait_h h x f v) R
+  end.
+Fixpoint crun3 (d : dstate) (R : list reg) (ops : list cop3) : dstate * list reg * list (cop3 * obs) :=
+  match ops with
+  | [] => (d, R, [])
+  | c :: r => let '(d1, ob) := dstep d (dop_of3 c) in
+              let '(d2, R2, tr) := crun3 d1 (live_after3 R c ob) r in (d2, R2, (c, ob) :: tr)
+  end.
+Fixpoint admissible_run3 (d : dstate) (R : list reg) (ops : list cop3) : Prop :=
+  match ops with
+  | [] => True
+  | c :: r => admissible3 (d_heap d) R c /\
+              admissible_run3 (fst (dstep d (dop_of3 c))) (live_after3 R c (snd (dstep d (dop_of3 c)))) r
+  end.
+Definition quiet_outcome3 (c : cop3) (ob : obs) : Prop :=
+  match c with C2 c' => quiet_outcome c' ob | CAdd _ _ _ => o_out ob = None end.
+
+Lemma cstep3 d R c d1 ob : dstate_inv d R -> admissible3 (d_heap d) R c -> dstep d (dop_of3 c) = (d1, ob) ->
+  dstate_inv d1 (live_after3 R c ob) /\ quiet_outcome3 c ob.
+Proof.
+  intros I Ad S. destruct c as [c'|x f v]; cbn [dop_of3 live_after3 admissible3 quiet_outcome3] in *.
+  - apply (cstep2 d R c' d1 ob I Ad S).
+  - destruct I as [I [Dh Do]]. destruct Ad as (New & Ht & A & F').
+    cbn [dstep] in S. rewrite New in S.
+    destruct (add_trait_step (d_heap d) x f v New Ht A R (st_hooks (d_st d)) (d_st d) I F' Dh Do) as (H' & calls & E & I').
+    rewrite E in S. inversion S; subst d1 ob. cbn [o_out]. split; [|reflexivity].
+    split; [exact I'|split; assumption].
+Qed.
+
+Lemma dyn3_hooks_are_expected : forall ops d R d' R' tr, dstate_inv d R -> admissible_run3 d R ops ->
+  crun3 d R ops = (d', R', tr) ->
+  dstate_inv d' R' /\ forall c ob, In (c, ob) tr -> quiet_outcome3 c ob.
+Proof.
+  induction ops as [|c ops IH]; intros d R d' R' tr I Ad Cr; cbn [crun3] in Cr.
+  - inversion Cr; subst. split; [exact I|intros ? ? []].
+  - destruct Ad as [Ad1 Ad2]. destruct (dstep d (dop_of3 c)) as [d1 ob] eqn:S. cbn [fst snd] in Ad2.
+    destruct (crun3 d1 (live_after3 R c ob) ops) as [[d2 R2] tr2] eqn:Cr2. inversion Cr; subst.
+    destruct (cstep3 d R c d1 ob I Ad1 S) as [I1 O1]. destruct (IH _ _ _ _ _ I1 Ad2 Cr2) as [I2 O2].
+    split; [exact I2|]. intros c' ob' [E|Hin]; [inversion E; subst; exact O1|apply (O2 _ _ Hin)].
+Qed.
+
+(* who is called by add_trait: the handlers hooked on the object's trait_added, once each *)
+Lemma run_ta_notifiers_calls h s x f : forall ns H calls H' calls',
+  run_ta_notifiers h s x f ns H calls = (H', calls', None) -> calls' = calls ++ calls_of s ns.
+Proof.
+  induction ns as [|n r IH]; intros H calls H' calls' R; cbn [run_ta_notifiers] in R.
+  - inversion R; subst. unfold calls_of. cbn. rewrite app_nil_r. reflexivity.
+  - change (calls_of s (n :: r)) with
+      ((match n with NUser k' _ => if alive s k' then [k'] else [] | _ => [] end) ++ calls_of s r).
+    destruct n as [k rc|m g k|i].
+    + rewrite (IH _ _ _ _ R). destruct (alive s k); [rewrite <- app_assoc|]; reflexivity.
+    + cbn [app]. destruct m; try (apply (IH _ _ _ _ R)).
+      destruct g as [[f' nt opt|ck nt opt] cs]; [|apply (IH _ _ _ _ R)].
+      destruct (alive s k && Nat.eqb f' f); [|apply (IH _ _ _ _ R)].
+      destruct (walk_plan _ false H) as [H1 [e|]]; [discriminate|apply (IH _ _ _ _ R)].
+    + cbn [app]. apply (IH _ _ _ _ R).
+Qed.
+Lemma add_trait_calls (h hrun : heap) R H s x f H' calls k :
+  dinv h H R -> wfH H -> dead_handlers s = [] -> dead_objs s = [] ->
+  run_ta_notifiers hrun s x f (H (x, F_TA)) H [] = (H', calls, None) ->
+  (ncalls k calls <= 1) /\
+  (ncalls k calls = 1 <-> exists g y, In (k, g, y) R /\ l_matched h g y (x, F_TA) = true).
+Proof.
+  intros (P & Inv & F) W Dh Do Rn. rewrite (run_ta_notifiers_calls _ _ _ _ _ _ _ _ _ Rn). cbn [app].
+  rewrite (calls_count s (H (x, F_TA)) k (proj1 W (x, F_TA)) (proj2 W (x, F_TA))).
+  assert (alive s k = true) as -> by (unfold alive; rewrite Dh, Do; reflexivity). cbn [andb].
+  change (cnt (CK (AUser k)) (H (x, F_TA))) with (cntH H (x, F_TA) (CK (AUser k))). rewrite Inv.
+  split; [destruct (0 <? _); lia|].
+  destruct (0 <? tot h R (x, F_TA) (CK (AUser k))) eqn:Z.
+  - apply Nat.ltb_lt in Z. split; [intros _|reflexivity].
+    destruct (tot_pos_in _ _ _ _ Z) as (k' & g & y & Hin & Pp).
+    assert (k' = k) as ->.
+    { destruct (key_eqb k' k) eqn:Q; [apply key_eqb_spec, Q|]. unfold pcount in Pp.
+      rewrite plan_other_key in Pp; [lia|]. cbn [akey_key]. intros E. subst. rewrite key_eqb_refl in Q. discriminate. }
+    exists g, y. split; [exact Hin|]. apply (plan_matched _ k g y (x, F_TA) (F k g y Hin)). exact Pp.
+  - apply Nat.ltb_ge in Z. split; [discriminate|]. intros (g & y & Hin & M). exfalso.
+    assert (0 < tot h R (x, F_TA) (CK (AUser k))); [|lia].
+    apply (tot_in_pos _ _ _ _ k g y Hin). apply (plan_matched _ k g y (x, F_TA) (F k g y Hin)). exact M.
+Qed.
